@@ -18,7 +18,9 @@ Readings fixed here (each chosen so that the specification never demands more th
   that the object lacks (`Absent`) is NOT there for the kube-scheduler, so a daemonset whose node selector names it never
   runs on the node and nothing is reserved for it, and a pod that selects on it cannot go there;
 * a pod that mounts PersistentVolumeClaims can use a node iff every claim resolves and SOME topology term of every volume
-  (PersistentVolume node affinity terms / StorageClass allowedTopologies are OR-ed) holds on the node's labels.
+  (PersistentVolume node affinity terms / StorageClass allowedTopologies are OR-ed) holds on the node's labels;
+* a node whose CSINode reports an attach limit can take a pod iff the UNIQUE volumes of the pods on it and the pod's own stay
+  within the limit - a claim that is already attached there does not count again.
 -/
 import Karp.Spec.Scenario
 import Karp.Spec.Admissible
@@ -72,9 +74,25 @@ def volumesReach (s : Scenario) (p : Pod) (sat : List KExpr → Bool) : Bool :=
     | .error _ => false
     | .ok terms => terms.isEmpty || terms.any sat)
 
+/-- node name ↦ the attach limit its CSINode reports for the CSI driver (all volumes of the scenario vocabulary belong to one
+    driver); a node without entry has no limit -/
+abbrev Limits := List (String × Nat)
+
+/-- the persistent volumes a pod attaches: one per claim that resolves (NodeVolumeLimits counts UNIQUE volumes: a claim that
+    several pods of the node mount is attached once) -/
+def attaches (s : Scenario) (p : Pod) : List String :=
+  p.volumes.filterMap (fun v => match volumeTopology s p v with | .ok _ => some (p.ns ++ "/" ++ v.claim) | .error _ => none)
+
+/-- the node stays within its attach limit when `p` joins the pods `on` it -/
+def withinAttachLimit (s : Scenario) (limits : Limits) (n : Node) (on : List Pod) (p : Pod) : Bool :=
+  match limits.lookup n.name with
+  | none => true
+  | some l => ((on ++ [p]).flatMap (attaches s)).eraseDups.length ≤ l
+
 /-- node `n`, holding its bound pods and `placed` (what the pass already put there), can also take `p`, looking only
     at required terms `lo ≤ j < hi` of the pod -/
-def nodeAdmitsTerms (s : Scenario) (n : Node) (placed : List Pod) (p : Pod) (lo hi : Nat) (absent : Absent := []) : Bool :=
+def nodeAdmitsTerms (s : Scenario) (n : Node) (placed : List Pod) (p : Pod) (lo hi : Nat) (absent : Absent := [])
+    (limits : Limits := []) : Bool :=
   match s.it? n.it with
   | none => false
   | some it =>
@@ -89,6 +107,7 @@ def nodeAdmitsTerms (s : Scenario) (n : Node) (placed : List Pod) (p : Pod) (lo 
     !n.deleting &&
     nodeSelectorOK ls p.nodeSelector && someTermIn ls p.required lo hi &&
     volumesReach s p (fun t => t.all (exprOK ls)) &&
+    withinAttachLimit s limits n (n.pods ++ placed) p &&
     toleratesEvery p.tolerations taints &&
     p.hostPorts.all (fun hp => !((n.pods ++ placed).flatMap (·.hostPorts)).any (fun u => portConflict u hp)) &&
     decide (sumCPU all + remDaemonCPU ≤ it.allocCPU) &&
@@ -96,8 +115,8 @@ def nodeAdmitsTerms (s : Scenario) (n : Node) (placed : List Pod) (p : Pod) (lo 
     decide ((all.length : Int) + remDaemonPods ≤ it.pods)
 
 /-- with every required term of the pod -/
-def nodeAdmits (s : Scenario) (n : Node) (placed : List Pod) (p : Pod) (absent : Absent := []) : Bool :=
-  nodeAdmitsTerms s n placed p 0 p.required.length absent
+def nodeAdmits (s : Scenario) (n : Node) (placed : List Pod) (p : Pod) (absent : Absent := []) (limits : Limits := []) : Bool :=
+  nodeAdmitsTerms s n placed p 0 p.required.length absent limits
 
 /-! ### Could a NodeClaim opened earlier in the pass admit the pod? -/
 
@@ -184,7 +203,7 @@ def Progress.record (g : Progress) (s : Scenario) (e : Event) : Progress :=
       else { g with claims := g.claims ++ [(e.target, c)] }
 
 /-- verdict on one commit; `none` = fine.  A leading "[tag] " classifies the violation. -/
-def judgeEvent (s : Scenario) (cands : List String) (g : Progress) (e : Event) (absent : Absent := []) : Option String :=
+def judgeEvent (s : Scenario) (cands : List String) (g : Progress) (e : Event) (absent : Absent := []) (limits : Limits := []) : Option String :=
   match s.pod? e.pod with
   | none => some s!"[trace] commit of unknown pod {e.pod}"
   | some p =>
@@ -198,7 +217,7 @@ def judgeEvent (s : Scenario) (cands : List String) (g : Progress) (e : Event) (
       -- terms the scheduler has looked at so far: those already dropped by relaxation and the current first one
       let tried := p.required.length - e.termsLeft + 1
       let where_ := if e.kind == .new then "a NodeClaim opened for it" else s!"NodeClaim {e.target} of this pass"
-      match s.nodes.find? (fun n => nodeAdmitsTerms s n (g.placedOn n.name) p 0 tried absent) with
+      match s.nodes.find? (fun n => nodeAdmitsTerms s n (g.placedOn n.name) p 0 tried absent limits) with
       | some n => some s!"[existing] pod {p.name} was put on {where_} although node {n.name} (stage {n.stage}) could admit it next to what was already assigned there"
       | none =>
       let earlier := if e.kind == .new then g.claims else []
@@ -206,7 +225,7 @@ def judgeEvent (s : Scenario) (cands : List String) (g : Progress) (e : Event) (
       | some (i, _) => some s!"[inflight] pod {p.name} was put on a NodeClaim opened for it although NodeClaim {i} of this pass could admit it next to what was already assigned there"
       | none =>
       -- only a LATER required term (one the scheduler had not looked at yet) is satisfied by existing capacity
-      match s.nodes.find? (fun n => nodeAdmits s n (g.placedOn n.name) p absent) with
+      match s.nodes.find? (fun n => nodeAdmits s n (g.placedOn n.name) p absent limits) with
       | some n => some s!"[or-term] pod {p.name} was put on {where_} although node {n.name} satisfies a later required node-affinity term and could admit it"
       | none =>
       match earlier.find? (fun (_, c) => claimAdmits s c p cands) with
@@ -214,15 +233,15 @@ def judgeEvent (s : Scenario) (cands : List String) (g : Progress) (e : Event) (
       | none => none
 
 /-- the whole trace, in order -/
-def judgeTrace (s : Scenario) (cands : List String) (absent : Absent) : Progress → List Event → Option String
+def judgeTrace (s : Scenario) (cands : List String) (absent : Absent) (limits : Limits) : Progress → List Event → Option String
   | _, [] => none
   | g, e :: rest =>
-    match judgeEvent s cands g e absent with
+    match judgeEvent s cands g e absent limits with
     | some w => some w
-    | none => judgeTrace s cands absent (g.record s e) rest
+    | none => judgeTrace s cands absent limits (g.record s e) rest
 
-def passOK (s : Scenario) (cands : List String) (trace : List Event) (absent : Absent := []) : Option String :=
-  judgeTrace s cands absent { onNode := [], claims := [] } trace
+def passOK (s : Scenario) (cands : List String) (trace : List Event) (absent : Absent := []) (limits : Limits := []) : Option String :=
+  judgeTrace s cands absent limits { onNode := [], claims := [] } trace
 
 /-! ### Re-running provisioning while the capacity of pass 1 is still starting -/
 
@@ -232,10 +251,81 @@ def reopened (s : Scenario) (placedBefore : List String) (out2 : Outcome) : List
   (out2.claims.flatMap (·.pods)).filter (fun pn =>
     placedBefore.contains pn && (match s.pod? pn with | some p => plain s p | none => false))
 
+/-! ### The launch keeps what the NodeClaim promised
+
+A NodeClaim is opened with requirements that every pod placed on it is compatible with; the node it is launched as counts
+as that capacity on the next pass only if it carries, for every label key a pod asked about, a label the requirement admits
+(a requirement that needs the label - `In`, `Exists`, `Gt`, `Lt` - is broken by its absence as by a value outside). -/
+
+/-- keys among `keys` on which the labels `ls` of the launched node break the requirements `c.reqs` of its NodeClaim -/
+def brokenPromises (c : Claim) (ls : Labels) (keys : List String) : List String :=
+  keys.filter (fun k =>
+    k != "kubernetes.io/hostname" &&
+    (match c.reqs.lookup k with
+     | none => false
+     | some r => match ls.lookup k with
+       | some v => !r.has v
+       | none => !r.absentOk))
+
+/-- every label key the pod constrains (node selector and every required term) -/
+def podAllKeys (p : Pod) : List String :=
+  ((p.nodeSelector.map (fun kv => normalizeKey kv.1)) ++ p.required.flatten.map (fun (e : KExpr) => normalizeKey e.key)).eraseDups
+
+/-- pods of the property's class that pass 1 placed on NodeClaim `c`, that the re-run put on a NEW NodeClaim, and for which the
+    node launched from `c` (labels `ls`) breaks what `c` promised on a key the pod asks about: (pod, key) -/
+def reopenedForLostLabel (s : Scenario) (c : Claim) (ls : Labels) (podsOnClaim : List String) (out2 : Outcome) : Option (String × String) :=
+  let again := out2.claims.flatMap (·.pods)
+  (podsOnClaim.filterMap (fun pn =>
+    match s.pod? pn with
+    | none => none
+    | some p =>
+      if !again.contains pn || !plain s p then none else
+      ((brokenPromises c ls (podAllKeys p)).head?).map (fun k => (pn, k)))).head?
+
 /-! ### The gate: no pass while a created NodeClaim is unlaunched -/
 
 /-- `launchedOf n k` : after `k` of the `n` created NodeClaims were launched, the cluster may report "synced"
     exactly when none is left unlaunched -/
 def syncedExpected (created launched : Nat) : Bool := launched ≥ created
+
+/-! ### The deletion mark: "nodes marked for deletion are not counted as capacity"
+
+Judged on what the real cluster state shows before and after one event.  A call `MarkForDeletion(ids…)` marks EVERY node it
+names that cluster state knows - wherever in the list it stands and whatever else the list contains; only
+`UnmarkForDeletion` (or the node leaving cluster state) takes a mark away; what a pass counts as capacity (`Active`) and what
+it reschedules (`Deleting`) is exactly the split of the known nodes by the mark. -/
+
+structure MarkView where
+  tracked : List String
+  marked : List String
+  active : List String
+  deleting : List String
+
+/-- `kind`: "mark" | "unmark" | anything else (an informer delivery / deletion); `ids`: the names the call lists -/
+def markJudge (before after : MarkView) (kind : String) (ids : List String) : Option String :=
+  match after.tracked.find? (fun n => after.active.contains n == after.marked.contains n || after.deleting.contains n != after.marked.contains n) with
+  | some n => some s!"[mark-split] node {n} is tracked, marked = {after.marked.contains n}, in Active() = {after.active.contains n}, in Deleting() = {after.deleting.contains n}"
+  | none =>
+  if kind == "mark" then
+    match ids.find? (fun n => after.tracked.contains n && !after.marked.contains n) with
+    | some n => some s!"[mark-lost] MarkForDeletion{ids} left node {n}, which cluster state knows, unmarked: it is still counted as capacity"
+    | none =>
+      match after.tracked.find? (fun n => !ids.contains n && before.tracked.contains n && before.marked.contains n != after.marked.contains n) with
+      | some n => some s!"[mark-stray] MarkForDeletion{ids} changed the mark of node {n}, which it does not name"
+      | none => none
+  else if kind == "unmark" then
+    match ids.find? (fun n => after.tracked.contains n && after.marked.contains n) with
+    | some n => some s!"[unmark-lost] UnmarkForDeletion{ids} left node {n} marked"
+    | none =>
+      match after.tracked.find? (fun n => !ids.contains n && before.tracked.contains n && before.marked.contains n != after.marked.contains n) with
+      | some n => some s!"[mark-stray] UnmarkForDeletion{ids} changed the mark of node {n}, which it does not name"
+      | none => none
+  else
+    match after.tracked.find? (fun n => before.tracked.contains n && before.marked.contains n && !after.marked.contains n) with
+    | some n => some s!"[mark-lost] node {n} lost its deletion mark through a {kind} event although it never left cluster state"
+    | none =>
+      match after.tracked.find? (fun n => !before.tracked.contains n && after.marked.contains n) with
+      | some n => some s!"[mark-stray] node {n} entered cluster state already marked for deletion"
+      | none => none
 
 end Karp.Spec.NeedCapacity
